@@ -261,6 +261,31 @@ func registerNatives(e *Engine) {
 		st.dirty = true
 		st.heap[id] = NativeV{Tag: "queue", V: append(append([]Value(nil), q...), x)}
 	}
+	// text-keyed registries: SetIP / SetNum fix what the parser stubs return for a given placeholder text
+	getReg := func(st *State, id int) map[string]Value {
+		if o, ok := st.heap[id]; ok {
+			return o.(NativeV).V.(map[string]Value)
+		}
+		return nil
+	}
+	setReg := func(st *State, id int, k string, x Value) {
+		old := getReg(st, id)
+		nm := make(map[string]Value, len(old)+1)
+		for kk, vv := range old {
+			nm[kk] = vv
+		}
+		nm[k] = x
+		st.dirty = true
+		st.heap[id] = NativeV{Tag: "reg", V: nm}
+	}
+	e.reg(V+"SetIP", func(e *Engine, st *State, cc *CallCtx) (Value, bool) {
+		setReg(st, ipRegID, concStrArg(e.normStr(cc.Args[0].(StrV))), cc.Args[1])
+		return nil, true
+	})
+	e.reg(V+"SetNum", func(e *Engine, st *State, cc *CallCtx) (Value, bool) {
+		setReg(st, numRegID, concStrArg(e.normStr(cc.Args[0].(StrV))), cc.Args[1])
+		return nil, true
+	})
 	e.reg(V+"PushIP", func(e *Engine, st *State, cc *CallCtx) (Value, bool) {
 		pushQ(st, ipQueueID, cc.Args[0])
 		return nil, true
@@ -277,7 +302,14 @@ func registerNatives(e *Engine) {
 		if s.S == "" || strings.HasPrefix(s.S, "bad") {
 			return TupleV{e.Zero(types.NewSlice(types.Typ[types.Uint8])), c.False(), e.mkError(st, "IP parse: incorrect format")}, true
 		}
-		if qv, ok := popQ(st, ipQueueID); ok {
+		var qv Value
+		var okq bool
+		if rv, ok := getReg(st, ipRegID)[s.S]; ok {
+			qv, okq = rv, true
+		} else {
+			qv, okq = popQ(st, ipQueueID)
+		}
+		if okq {
 			src := qv.(SliceV)
 			arr, off, ln := e.bytesOf(st, src)
 			if !ln.IsConst() {
@@ -309,7 +341,16 @@ func registerNatives(e *Engine) {
 			if bw == 0 {
 				bw = 64
 			}
-			if qv, ok := peekQ(st, numQueueID); ok {
+			var regHit bool
+			var qv Value
+			var ok bool
+			if s.Conc {
+				qv, regHit = getReg(st, numRegID)[s.S]
+			}
+			if !regHit {
+				qv, ok = peekQ(st, numQueueID)
+			}
+			if regHit || ok {
 				x := qv.(*smt.Term)
 				inRange := c.True()
 				if bw < 64 {
@@ -321,7 +362,9 @@ func registerNatives(e *Engine) {
 					}
 				}
 				okRange := e.branch(st, inRange) // before the queue is popped (no mutation before a fork)
-				popQ(st, numQueueID)
+				if !regHit {
+					popQ(st, numQueueID)
+				}
 				if okRange {
 					return TupleV{x, IfaceV{}}, true
 				}
@@ -345,57 +388,7 @@ func registerNatives(e *Engine) {
 	// (callee summarisation): the caller continues on a single path instead of one per callee path.
 	pure := func(e *Engine, st *State, cc *CallCtx) (Value, bool) {
 		fv := cc.Args[0].(FuncV)
-		if fv.Fn == nil {
-			panic(unsupported("Pure: not a Go closure"))
-		}
-		type outcome struct {
-			cond *smt.Term
-			val  *smt.Term
-		}
-		var outs []outcome
-		base := len(st.pc)
-		child := st.clone(e)
-		child.frames = nil
-		child.forced, child.fpos, child.decided = nil, 0, nil
-		child.panic_, child.recovered = nil, false
-		fr := e.pushFrame(child, fv.Fn, nil, fv.Bind, nil, retNormal)
-		fr.onRet = func(s2 *State, res Value) {
-			t, ok := res.(*smt.Term)
-			if !ok {
-				panic(unsupported("Pure: result is not a scalar"))
-			}
-			outs = append(outs, outcome{cond: c.And(s2.pc[base:]...), val: t})
-			s2.done = true
-		}
-		saved := e.work
-		e.work = []*State{child}
-		for len(e.work) > 0 {
-			s2 := e.work[len(e.work)-1]
-			e.work = e.work[:len(e.work)-1]
-			e.runPath(s2)
-			e.rep.Steps += s2.steps - st.steps
-			if !e.deadline.IsZero() && time.Now().After(e.deadline) {
-				e.work = nil
-				e.rep.Inconclusive = appendUniq(e.rep.Inconclusive, "time budget exhausted inside a summarised call (reduced coverage)")
-			}
-		}
-		e.work = saved
-		if len(outs) == 0 {
-			panic(pathDead{}) // every path of the callee ended (panic reported, dead or unsupported)
-		}
-		res := outs[len(outs)-1].val
-		for i := len(outs) - 2; i >= 0; i-- {
-			res = c.Ite(outs[i].cond, outs[i].val, res)
-		}
-		// paths of the callee that ended abnormally are excluded from the continuation
-		var conds []*smt.Term
-		for _, o := range outs {
-			conds = append(conds, o.cond)
-		}
-		if cover := c.Or(conds...); !cover.IsTrue() {
-			e.assume(st, cover)
-		}
-		return res, true
+		return e.summarise(st, fv, nil), true
 	}
 	e.reg(V+"PureBool", pure)
 	e.reg(V+"PureInt", pure)
@@ -482,10 +475,68 @@ func registerNatives(e *Engine) {
 	registerStd(e)
 }
 
+// summarise runs fv(args...) on all its paths from the current state and merges the scalar results into
+// one term (callee summarisation). The callee must not have side effects the caller depends on.
+func (e *Engine) summarise(st *State, fv FuncV, args []Value) *smt.Term {
+	c := e.C
+	if fv.Fn == nil {
+		panic(unsupported("summarise: not a Go function"))
+	}
+	type outcome struct {
+		cond *smt.Term
+		val  *smt.Term
+	}
+	var outs []outcome
+	base := len(st.pc)
+	child := st.clone(e)
+	child.frames = nil
+	child.forced, child.fpos, child.decided = nil, 0, nil
+	child.panic_, child.recovered = nil, false
+	fr := e.pushFrame(child, fv.Fn, args, fv.Bind, nil, retNormal)
+	fr.onRet = func(s2 *State, res Value) {
+		t, ok := res.(*smt.Term)
+		if !ok {
+			panic(unsupported("summarise: result is not a scalar"))
+		}
+		outs = append(outs, outcome{cond: c.And(s2.pc[base:]...), val: t})
+		s2.done = true
+	}
+	saved := e.work
+	e.work = []*State{child}
+	for len(e.work) > 0 {
+		s2 := e.work[len(e.work)-1]
+		e.work = e.work[:len(e.work)-1]
+		e.runPath(s2)
+		e.rep.Steps += s2.steps - st.steps
+		if !e.deadline.IsZero() && time.Now().After(e.deadline) {
+			e.work = nil
+			e.rep.Inconclusive = appendUniq(e.rep.Inconclusive, "time budget exhausted inside a summarised call (reduced coverage)")
+		}
+	}
+	e.work = saved
+	if len(outs) == 0 {
+		panic(pathDead{}) // every path of the callee ended (panic reported, dead or unsupported)
+	}
+	res := outs[len(outs)-1].val
+	for i := len(outs) - 2; i >= 0; i-- {
+		res = c.Ite(outs[i].cond, outs[i].val, res)
+	}
+	var conds []*smt.Term
+	for _, o := range outs {
+		conds = append(conds, o.cond)
+	}
+	if cover := c.Or(conds...); !cover.IsTrue() {
+		e.assume(st, cover)
+	}
+	return res
+}
+
 const (
 	hashRegID  = -1
 	ipQueueID  = -2
 	numQueueID = -3
+	ipRegID    = -4
+	numRegID   = -5
 )
 
 type hashEnt struct {
